@@ -310,8 +310,8 @@ type fileCase struct {
 
 func writerJobs(r *ev.Run) []job {
 	var jobs []job
-	reps := r.Pick(8, 150)
-	bigLens := r.Pick(30, 600)
+	reps := r.Pick(16, 150)
+	bigLens := r.Pick(60, 600)
 	no := 0
 	add := func(fc fileCase) {
 		no++
